@@ -335,10 +335,10 @@ func (m *Machine) visitInstr(fr *frame, instr ssa.Instruction) continuation {
 		fr.set(instr, fr.get(instr.X).(structure)[instr.Field])
 
 	case *ssa.IndexAddr:
-		fr.set(instr, m.indexAddr(fr.get(instr.X), fr.get(instr.Index)))
+		fr.set(instr, m.indexAddr(fr.get(instr.X), fr.get(instr.Index), instr.Index.Type()))
 
 	case *ssa.Index:
-		fr.set(instr, m.index(fr.get(instr.X), fr.get(instr.Index), instr.Type()))
+		fr.set(instr, m.index(fr.get(instr.X), fr.get(instr.Index), instr.Type(), instr.Index.Type()))
 
 	case *ssa.Lookup:
 		fr.set(instr, m.lookup(instr, fr.get(instr.X), fr.get(instr.Index)))
